@@ -2,13 +2,13 @@
 
    c17_exe run            cases on stdin:
         case <id>
-        cfg <arity> <probeset size> <effective threshold> <ordered 0/1> <log2 initial capacity> <fuel>
+        cfg <arity> <probeset size> <effective threshold> <ordered 0/1> <log2 initial capacity> <fuel> <lgcap>
         hash <h_i(0)> <h_i(1)> ...          one line per table i = 0..arity-1 (lookup tables over keys 0..n-1)
         ops <c> <key> <c> <key> ...         c: 1 insert, 2 erase, 3 find
         end
       output per case:
         case <id>
-        op <j> res=<0|1|2> size=<n> lg=<n> dropped=<k,k,..> found=<k,k,..>      (res 2 = out of fuel)
+        op <j> res=<0|1|2> size=<n> lg=<n> dropped=<k,k,..> found=<k,k,..>      (res 2 = out of fuel, 3 = capacity cap)
         final <k k k ...>                   elements in table/bucket/probe-set order (= clear_and_dispose order)
         endcase
    c17_exe search <arity> <psize> <thr> <ord> <lg0> <nkeys> <hvals> <fuel> [<max>]
@@ -60,7 +60,7 @@ let search args =
   match List.map int_of_string args with
   | ka :: ps :: th :: od :: lg0 :: nk :: hv :: fuel :: rest ->
     let maxw = match rest with m :: _ -> m | [] -> 20 in
-    let cfg = List.map nat_of_int [ka; ps; th; od; lg0; fuel] in
+    let cfg = List.map nat_of_int [ka; ps; th; od; lg0; fuel; 12] in
     let ops = List.concat (List.init nk (fun i -> [1; i])) in
     let cells = ka * nk in
     let a = Array.make cells 0 in
@@ -72,7 +72,7 @@ let search args =
       let outs = run_case cfg hashes (pairs ops) in
       let j = ref 0 and hit = ref false in
       List.iter (fun (((((code, _), _), dr), _), _) ->
-          if int_of_nat code = 2 then incr oof;
+          if int_of_nat code >= 2 then incr oof;
           if dr <> [] && not !hit then begin
             hit := true; incr wit;
             if !wit <= maxw then
@@ -89,8 +89,48 @@ let search args =
     Printf.printf "searched %d witnesses %d outoffuel %d\n" !searched !wit !oof
   | _ -> prerr_endline "usage: search arity psize thr ord lg0 nkeys hvals fuel [max]"
 
+(* search2: smallest table reachable by successful inserts on which resize() itself drops an element *)
+let search2 args =
+  match List.map int_of_string args with
+  | ka :: ps :: th :: od :: lg0 :: nk :: hv :: fuel :: rest ->
+    let maxw = match rest with m :: _ -> m | [] -> 20 in
+    let p = { p_k = nat_of_int ka; p_size = nat_of_int ps; p_thr = nat_of_int th; p_ord = (od = 1) } in
+    let cells = ka * nk in
+    let a = Array.make cells 0 in
+    let searched = ref 0 and wit = ref 0 in
+    let continue = ref true in
+    while !continue do
+      incr searched;
+      let hashes = List.init ka (fun i -> List.init nk (fun x -> n_of_int a.(i * nk + x))) in
+      let h = h_tab hashes in
+      let t = ref (init p (nat_of_int lg0)) and ok = ref true in
+      for x = 0 to nk - 1 do
+        if !ok then begin
+          match insert h p (nat_of_int fuel) !t (n_of_int x) with
+          | ((Ok true, t'), []) -> t := t'
+          | _ -> ok := false
+        end
+      done;
+      if !ok then begin
+        let (_, dr) = resize h p !t in
+        if dr <> [] then begin
+          incr wit;
+          if !wit <= maxw then
+            Printf.printf "witness2 %d hash %s resize-drops=%s\n" nk
+              (String.concat " | " (List.init ka (fun i -> join " " (List.init nk (fun x -> a.(i * nk + x))))))
+              (join "," (List.map int_of_n dr))
+        end
+      end;
+      let i = ref 0 in
+      while !i < cells && a.(!i) = hv - 1 do a.(!i) <- 0; incr i done;
+      if !i >= cells then continue := false else a.(!i) <- a.(!i) + 1
+    done;
+    Printf.printf "searched %d witnesses %d\n" !searched !wit
+  | _ -> prerr_endline "usage: search2 arity psize thr ord lg0 nkeys hvals fuel [max]"
+
 let () =
   match Array.to_list Sys.argv with
+  | _ :: "search2" :: args -> search2 args
   | _ :: "run" :: _ -> run ()
   | _ :: "search" :: args -> search args
   | _ -> prerr_endline "usage: c17_exe run | search ..."
